@@ -89,7 +89,8 @@ def small_vals(rnd, n):
     return [rnd.choice([-2, -1, 1, 2, F(1, 2), F(-1, 2), 0, 3]) for _ in range(n)]
 
 
-def training_case(rnd, layers, in_dims, out_dims, iters, lr, cost="mse", batches=None, ownership=True, rebuild=False, freeze=None):
+def training_case(rnd, layers, in_dims, out_dims, iters, lr, cost="mse", batches=None, ownership=True, rebuild=False, freeze=None,
+                  twists=()):
     """layers: list of step dicts (dense_new / conv_new) with layer ids; runs forward/backward/update"""
     steps = [RESET] + layers
     lids = [l["layer"] for l in layers]
@@ -111,6 +112,11 @@ def training_case(rnd, layers, in_dims, out_dims, iters, lr, cost="mse", batches
             steps.append({"op": "stop", "args": [freeze[0]]})        # a frozen parameter: no gradient, no update
         if freeze is not None and it == freeze[1] + 1:
             steps.append({"op": "start", "args": [freeze[0]]})
+        if "double_forward" in twists and it % 2 == 1:
+            # forward called twice before one backward: the SECOND output is the one that is differentiated
+            steps.append(leaf(h + 30, b + in_dims, small_vals(rnd, prod(b + in_dims))))
+            steps.append({"op": "m_forward", "args": [h + 30], "res": h + 31})
+            steps.append({"op": "drop", "args": [h + 31]})
         steps.append({"op": "m_forward", "args": [x], "res": out})
         if prev is not None and ownership:
             # the model moved on: nothing of the previous iteration may still hold its input or old parameters
@@ -118,7 +124,11 @@ def training_case(rnd, layers, in_dims, out_dims, iters, lr, cost="mse", batches
             for o in prev[1]:
                 steps.append({"op": "into_vec", "args": [o]})
         steps.append({"op": "m_backward", "args": [y]})
+        if "double_backward" in twists and it % 2 == 0:
+            steps.append({"op": "m_backward", "args": [y]})       # gradients accumulate: the update uses the sum
         steps.append({"op": "m_update"})
+        if "double_update" in twists:
+            steps.append({"op": "m_update"})                      # nothing holds a gradient any more: no change
         steps.append({"op": "drop", "args": [out]})
         steps.append({"op": "drop", "args": [y]})
         if rebuild:
@@ -134,8 +144,9 @@ def c14_cases(tier, seed):
     cases = []
     n = 500 if tier == "thorough" else 90
     for _ in range(n):
-        nl = rnd.choice([1, 1, 2])
+        nl = rnd.choice([1, 1, 2, 3])
         sizes = [rnd.choice([1, 2]) for _ in range(nl + 1)]
+        twists = [t for t in ("double_forward", "double_backward", "double_update") if rnd.random() < 0.2]
         layers = []
         for k in range(nl):
             layers.append(dense_new(k + 1, sizes[k], sizes[k + 1], rnd.choice(["none", "relu"]), [100 + 2 * k, 101 + 2 * k], rot=rnd.randrange(12)))
@@ -145,7 +156,7 @@ def c14_cases(tier, seed):
         params = [p for l in layers for p in l["ph"]]
         freeze = (rnd.choice(params), rnd.choice([0, 1])) if rnd.random() < 0.4 else None
         cases.append(training_case(rnd, layers, [sizes[0]], [sizes[-1]], rnd.choice([1, 2, 3]), rnd.choice([F(1, 2), 1, F(1, 4)]),
-                                   batches=batches, rebuild=rnd.random() < 0.25, freeze=freeze))
+                                   batches=batches, rebuild=rnd.random() < 0.25, freeze=freeze, twists=twists))
     # conv + dense stack
     for _ in range(60 if tier == "thorough" else 12):
         cnt, fr, fc = rnd.choice([1, 2]), rnd.choice([1, 2]), rnd.choice([1, 2])
